@@ -268,7 +268,7 @@ def classify(case, o):
 # ---- C: other uses of a snapshot that holds user-controlled parts: never compared, membership, sub-snapshots in loops
 def gen_usage(rng, i):
     kind = ["never", "in", "getitem_loop", "never", "in_nested", "bound_nested", "bound_fstring", "getitem_star", "star_nested",
-            "in_star", "star_loop", "equal_other_spelling", "call_hidden_kw", "inner_field"][i % 14]
+            "in_star", "star_loop", "equal_other_spelling", "call_hidden_kw", "inner_field", "fstring_nofield"][i % 15]
     g = G(rng, agree=True)
     flags = tuple(rng.choice(proggen.flag_subsets()))
     if kind == "never":
@@ -337,7 +337,7 @@ def gen_usage(rng, i):
     elif kind == "star_nested":
         # a star-expression BELOW the compared container (inside an element, a dict value, a constructor argument, inside Is(...)): only the
         # container that holds it is frozen, the managed siblings next to that container are still repaired
-        b = rng.randint(1, 9)
+        b = rng.choice([1, 2, 3, 4, 6, 7, 8, 9])          # not 5: the default of DC.b, which the generated code leaves out
         shape, frozen_txt = rng.choice([
             ("{{'rows': {fz}, 'count': {x}}}", "[*EXTRA, 7]"), ("[{fz}, {x}]", "[*EXTRA, 7]"), ("({fz}, {x})", "(*EXTRA, 7)"),
             ("DC(a={fz}, b={x})", "[*EXTRA, 7]"), ("[{fz}, {x}]", "{**BASE, 'k': 7}"), ("[{fz}, {x}]", "Is(max(*VALS))"), ("{{'m': {fz}, 'count': {x}}}", "Is(max(*VALS))")])
@@ -391,6 +391,16 @@ def gen_usage(rng, i):
         else:
             body = cls + f"EMPTY = ''\n\n\ndef test_a():\n    R = HD({a_new}) == snapshot(HD(a={a_old}, b=Is(EMPTY)))\n"
             g.snips.append("Is(EMPTY)")
+        allowed = set()
+    elif kind == "fstring_nofield":
+        # f-strings without replacement fields (f'ready', f'{{}}') at any depth: they are f-strings all the same and stay the user's, equal or not
+        txt = rng.choice(["f'ready'", "f'{{}}'", 'f"it\'s"', "f'a' f'b'"])
+        cur = eval(txt)
+        obs = rng.choice([cur, cur, "other"])
+        shape = rng.choice(["{fs}", "[{fs}, {x}]", "({x}, {fs})", "{{'k': {fs}, 'n': {x}}}", "DC(a={fs}, b={x})", "[0, [{fs}]]"])
+        xo, xn = render_atom(3, False), rng.choice([3, 4])
+        body = f"def test_a():\n    R = {shape.format(fs=repr(obs), x=xn)} == snapshot({shape.format(fs=txt, x=xo)})\n"
+        g.snips.append(txt)
         allowed = set()
     elif kind == "inner_field":
         # nested snapshot() calls as values of fields that have a default (plain, factory, factory that takes self): each is an independent snapshot that
@@ -609,7 +619,7 @@ def run(ctx: Ctx):
     ctx.coverage["oracle"]["cases"] = m
     ctx.sample({"test": cases[0]["source"].split("def test_a")[1], "unmanaged": cases[0]["snips"], "after_arg": outs[0].get("arg")})
     # C
-    mu = 336 if not ctx.thorough else 3360
+    mu = 360 if not ctx.thorough else 3600
     ucases = [gen_usage(ctx.rng, i) for i in range(mu)]
     uouts = pmap(run_usage, ucases, chunksize=8)
     for c, o in zip(ucases, uouts):
